@@ -476,7 +476,7 @@ def binding_rules(ctx):
             continue
         v = p.value
         n += 1
-        inv = [c for c in p.calls() if c == v]
+        inv = [c for c in p.calls() if kind(v) == 'call' and c[2] == v[2]]
         okc = kind(v) == 'call' and len(inv) == 1
         # implementation term: getattr(self, 'dbus_' + name) or decorated
         m = v[2] if kind(v) == 'call' else None
@@ -494,8 +494,8 @@ def binding_rules(ctx):
         if not (okc and src_ok):
             continue
         args, kw = v[3], dict(v[4])
-        has_args = margs in p.state.truthy
-        ok = (args == (('splice', margs),)) if has_args else args == ()
+        ok = args == (('splice', margs),) or (
+            args == () and margs in p.state.falsy)
         ctx.ob('C10.D6', fi.qualname, 'passes-decoded-arguments', ok,
                'the implementation must receive exactly the decoded '
                'arguments; receives %s' % [term_str(a)[:40] for a in args])
